@@ -189,8 +189,8 @@ inline Parsed tokenize(const std::string &f) {
 			switch(d.conv) { case 'd': case 'i': case 'u': case 'o': case 'x': case 'X': case 'b': case 'B': sizes.push_back(wide ? 8 : 4); break; case 'c': sizes.push_back(4); break; case 's': case 'p': sizes.push_back(8); break; default: break; }
 			for(int sz : sizes) { if(!first_size) first_size = sz; else if(sz != first_size) P.pos_sizes_uniform = false; }
 		}
-		std::map<int, int> kind; // position -> 1 integer, 2 pointer
-		for(auto &p : posl) { int k = (p.second == S_INT || p.second == S_CHAR) ? 1 : 2; if(kind.count(p.first) && kind[p.first] != k) P.pos_conflict = true; kind[p.first] = k; }
+		std::map<int, int> kind; // position -> 1 integer, 2 char string, 3 wide string (a %p use is compatible with either pointer kind)
+		for(auto &p : posl) { if(p.second == S_PTR) { if(kind.count(p.first) && kind[p.first] == 1) P.pos_conflict = true; continue; } int k = (p.second == S_INT || p.second == S_CHAR) ? 1 : p.second == S_STR ? 2 : 3; if(kind.count(p.first) && kind[p.first] != k) P.pos_conflict = true; kind[p.first] = k; }
 	}
 	P.slots.assign(maxpos, S_INT);
 	for(auto &p : posl) if(p.first >= 1) { SlotClass &c = P.slots[p.first - 1]; if(c == S_INT) c = p.second; }
